@@ -67,6 +67,25 @@ impl Asm {
     }
 }
 
+/// an empty program whose tables are as small as the types allow (the default tables have 16
+/// slots each, which is what most of the formula is made of)
+pub fn small_program() -> CaoCompiledProgram {
+    use cao_lang::collections::handle_table::HandleTable;
+    use cao_lang::collections::hash_map::CaoHashMap;
+    use cao_lang::verif_hooks::SysAllocator;
+    CaoCompiledProgram {
+        bytecode: Vec::new(),
+        data: Vec::new(),
+        labels: Labels(HandleTable::with_capacity(4, SysAllocator).unwrap()),
+        variables: Variables {
+            ids: HandleTable::with_capacity(4, SysAllocator).unwrap(),
+            names: HandleTable::with_capacity(4, SysAllocator).unwrap(),
+        },
+        cao_lang_version: String::new(),
+        trace: CaoHashMap::with_capacity_in(4, SysAllocator).unwrap(),
+    }
+}
+
 pub struct Rig {
     pub vm: Vm<'static, ()>,
     pub prog: CaoCompiledProgram,
